@@ -182,6 +182,10 @@ MUTANTS = [
  ("c08-var-comma-index-form", "C08", "", "html/tree/style.go", "\tvar (\n\t\tdefault_   []Token\n\t\thasDefault bool // the default value may be empty: var(--a,)\n\t)\n\tfor i, argument := range fn.Arguments {\n\t\tif pa.IsLiteral(argument, \",\") {\n\t\t\tdefault_, hasDefault = pa.RemoveWhitespace(fn.Arguments[i+1:]), true\n\t\t\tbreak\n\t\t}\n\t}\n", "\tvar default_ []Token\n\thasDefault := false\n\tfor i := 0; i < len(fn.Arguments) && !hasDefault; i++ {\n\t\tif pa.IsLiteral(fn.Arguments[i], \",\") {\n\t\t\tdefault_ = pa.RemoveWhitespace(fn.Arguments[i+1:])\n\t\t\thasDefault = true\n\t\t}\n\t}\n"),
  ("c19-desc-local-first", "C19", "", "css/validation/descriptors.go", "\tout.Symbols = l\n\treturn nil\n", "\tif len(l) >= 0 {\n\t\tout.Symbols = l\n\t}\n\treturn nil\n"),
  ("c13-extent-loop-form", "C13", "", "html/layout/tables.go", "\t\tcolumns := group.Children\n\t\tfor len(columns) > 1 && columns[len(columns)-1].Box().GridX >= len(table.ColumnPositions) {\n\t\t\tcolumns = columns[:len(columns)-1]\n\t\t}\n", "\t\tcolumns := group.Children\n\t\tfor {\n\t\t\tif len(columns) <= 1 || columns[len(columns)-1].Box().GridX < len(table.ColumnPositions) {\n\t\t\t\tbreak\n\t\t\t}\n\t\t\tcolumns = columns[:len(columns)-1]\n\t\t}\n"),
+ ("c08-parsefunction-nested-if", "C08", "", "css/parser/tokenizer.go", "\tif lastIsComma && name != \"var\" { // var(--a,) has an empty fallback\n\t\treturn \"\", nil\n\t}\n\treturn name, arguments", "\tif lastIsComma {\n\t\tif name == \"var\" {\n\t\t\treturn name, arguments\n\t\t}\n\t\treturn \"\", nil\n\t}\n\treturn name, arguments"),
+ ("c18-size-helper-form", "C18", "", "svg/svg.go", "\tw, h := svg.root.width, svg.root.height\n\tif w.U == 0 {\n\t\tw = Value{100, Perc}\n\t}\n\tif h.U == 0 {\n\t\th = Value{100, Perc}\n\t}\n\treturn w, h\n}", "\torAuto := func(v Value) Value {\n\t\tif v.U == 0 {\n\t\t\treturn Value{100, Perc}\n\t\t}\n\t\treturn v\n\t}\n\treturn orAuto(svg.root.width), orAuto(svg.root.height)\n}"),
+ ("c02-fixedheight-inline-form", "C02", "", "html/layout/blocks.go", "if overflows(box.PositionY+box.Height.V(), positionY) {", "if positionY > (box.PositionY+box.Height.V())*(1+1e-9) {"),
+ ("c18-viewbox-early-error", "C18", "", "svg/tree.go", "\t\tif err == nil && (v.Width < 0 || v.Height < 0) {\n\t\t\t// a negative size invalidates the attribute\n\t\t\treturn nil, nil\n\t\t}\n\t\treturn &v, err", "\t\tif err != nil {\n\t\t\treturn &v, err\n\t\t}\n\t\tif v.Width < 0 || v.Height < 0 {\n\t\t\treturn nil, nil\n\t\t}\n\t\treturn &v, nil"),
 ]
 
 def main():
